@@ -97,16 +97,27 @@ def run(ev, vd):
     r = tlc(os.path.join(SP, "Gluon.tla"), cfg=os.path.join(SP, "Gluon_mutant.cfg"), workers=NCPU, timeout=900)
     if r.ok:
         raise ToolError("Gluon does not distinguish a sync that does not reset mirrors (vacuous model?)")
+    # termination detection of the asynchronous execution (DGTerminator), exercised on the real code by C20's Async runs
+    for cfg in ["DGTerm.cfg", "DGTerm_recvfirst.cfg"] + (["DGTerm_thorough.cfg"] if tier() == "thorough" else []):
+        r = tlc(os.path.join(SP, "DGTerm.tla"), cfg=os.path.join(SP, cfg), workers=NCPU, timeout=3000, heap="16g")
+        ev.add_tlc(cfg, r)
+        if not r.ok:
+            raise ToolError("DGTerm (%s) violates %s:\n%s" % (cfg, r.violation, r.out[-1500:]))
+    for cfg in ("DGTerm_mutant.cfg", "DGTerm_nocausal.cfg"):
+        r = tlc(os.path.join(SP, "DGTerm.tla"), cfg=os.path.join(SP, cfg), workers=NCPU, timeout=900)
+        if r.ok:
+            raise ToolError("DGTerm accepts %s (vacuous model?)" % cfg)
     trace = os.path.join(BUILD, "tmp", "gluon.ndjson")
-    run_cases(ev, vd, 40 if tier() == "thorough" else 14, trace)
+    run_cases(ev, vd, 40 if tier() == "thorough" else 20, trace)
     judge(ev, vd, trace, ("sync",))
-    ev.cov["rule"] = ("one case = one (graph, partition policy, host count) MPI run with 14-40 sync rounds; every round picks write/read "
+    ev.cov["rule"] = ("one case = one (graph, partition policy, host count) MPI run with 20-40 sync rounds; every round picks write/read "
                       "location, field (min/add/max), bitset on/off, enforced encoding and update density from a seed; distinct = distinct cases; "
                       "non-trivial = at least two hosts")
     ev.assumptions += [
         "write / read locations are interpreted over the locally stored edges (a proxy is a source if it has a stored outgoing edge)",
         "add fields follow the delta protocol: mirrors hold the identity before they are written; proxies refreshed by a broadcast are not written again before they are consumed",
-        "bulk-synchronous syncs only (async = false); GPU personalities, edge substrates, array fields and sync_on_demand are not exercised",
+        "the sync harness uses bulk-synchronous syncs (async = false); asynchronous syncs and DGTerminator run end to end in C20's Async application runs, and DGTerm.tla shows the detector safe and live only under the assumption that all-reduce rounds do not overtake point-to-point messages handed to MPI earlier (without it TLC finds an early termination; not reproducible on one machine)",
+        "GPU personalities, edge substrates, array fields and sync_on_demand are not exercised",
         "message arrival orders between hosts are sampled by real MPI runs; the reduce/broadcast protocol is explored exhaustively in Gluon.tla"]
     ev.cov["engines"] = ["mc", "free", "tv"]
 
